@@ -5,11 +5,11 @@
    encryption (so CS1/CS2 on whole blocks run exactly plain CBC through them); every construction route
    builds the same model object; buffered CFB = the CFB recurrence = block-level CFB (C14_buffered_vs_block_cfb);
    on whole blocks the six stealing variants, both directions, are plain CBC / raw block encryption
-   with the CS3 exchange of the last two blocks (C14_cts_whole_blocks_enc, _dec).  Not proved yet (covered by
-   correspondence and the implementation-side predicates of gen/props/c14.py only): one-shot CFB
-   (Plumbing.async_inout) = block CFB as a theorem; the OFB byte-level wrapper vs the block encryptor. *)
+   with the CS3 exchange of the last two blocks (C14_cts_whole_blocks_enc, _dec).  One-shot CFB = buffered CFB
+   (C14_oneshot_vs_buffered_cfb), hence = block CFB.  Not proved yet (covered by correspondence and the
+   implementation-side predicates of gen/props/c14.py only): the OFB byte-level wrapper vs the block encryptor. *)
 From BM Require Import BlockModes Spec BlockModes_proofs Plumbing Toy Ints Ctr Belt Stream Cts Cts_mem Cts_spec Cts_cs_proofs Cts_dec_proofs Stream_proofs Cts_proofs
-  Interp Interp_proofs Wrapper_proofs Wrapper_inst Outcome Buf_proofs.
+  Interp Interp_proofs Wrapper_proofs Wrapper_inst Outcome Buf_proofs Async_proofs.
 
 (* OFB: three of the four front-ends at block level *)
 Theorem C14_ofb_frontends : forall (C : cipher) iv c,
@@ -127,3 +127,13 @@ Proof.
   generalize (c_E C iv). induction cs as [|c cs IH]; intros s; simpl; auto.
 Qed.
 Print Assumptions C14_buffered_vs_block_cfb.
+
+(* one-shot CFB from a fresh object writes the very bytes of the buffered type (BufEncryptor::encrypt /
+   BufDecryptor::decrypt called once on the whole message), for every length, in place or b2b *)
+Theorem C14_oneshot_vs_buffered_cfb : forall (C : cipher), cipher_wf C -> forall (enc : bool) iv (al : bool) (inb outb : list N),
+  length iv = c_bs C -> length outb = length inb -> (al = true -> inb = outb) ->
+  let k := if enc then KCfbE else KCfbD in
+  exists st', buf_apply C enc (buf_init C iv) inb =
+    Ok (st', snd (async_inout (bm_mbs C k) (bm_single C k) (bm_blocks C k) (bm_init C k iv) al inb outb)).
+Proof. exact async_cfb_eq_buf_apply. Qed.
+Print Assumptions C14_oneshot_vs_buffered_cfb.
